@@ -12,6 +12,8 @@ from vlib.core import SplitMix
 sys.path.insert(0, os.path.join(os.path.dirname(os.path.abspath(__file__)), "..", "_shared", "fluid"))
 import gen as G  # noqa: E402
 
+# classes of the three defects this check found, all fixed in the library (NOTES.md, known_findings.txt `fixed:` lines,
+# props/C19/fix_series): a disagreement is a plain violation, `classify` only names the class when one regresses
 KEYS = {"noop-penalty": "lazy-noop-penalty-update-drops-heap-entry",
         "bw-latency": "bandwidth-change-during-latency-phase",
         "ti-suspend": "ti-suspend-resume-priority-stale-remains"}
@@ -96,8 +98,9 @@ def tie_case(case):
     """no-margin inputs (DESIGN §4 tie stream): a suspend dated exactly (1e-6 relative) at a finish date of its target under
     some configuration: whether the suspension comes before or after the completion is decided by rounding (Full keeps a
     residue of ~1e-16*cost that then waits for the resume), so only tie-insensitive facts (everything completes) are
-    compared.  Only `susp`: the other operations change the date of a residue by nothing measurable, and the TI defect
-    makes activities finish exactly at a resume / priority-change date, which must not be mistaken for a tie."""
+    compared.  Only `susp`: the other operations change the date of a residue by nothing measurable (and before its fix
+    the TI defect made activities finish exactly at a resume / priority-change date, which must not be mistaken for a
+    tie if it ever comes back)."""
     from fractions import Fraction
     ops = {}
     for sec in case["runs"][0][1].split(" ; "):
@@ -123,8 +126,8 @@ def finishes(ans, acts):
 
 
 def classify(case, names, fins):
-    """which known defect class explains the disagreement: the class must be present in the workload AND removing the
-    configurations it affects must restore agreement"""
+    """which (fixed) defect class would explain the disagreement: the class must be present in the workload AND removing
+    the configurations it affects must restore agreement"""
     from fractions import Fraction
 
     def agree(idx, stuck_ok=False):
